@@ -329,6 +329,10 @@ let run (op : string) (args : string list) : string =
         | Some p -> arg_of_str p.pk_name ^ "|" ^ arg_of_str p.pk_base ^ "|" ^ arg_of_str p.pk_version ^ "|" ^ enc_s comment
         | None -> "ERR") pkgs in
       "OK:" ^ String.concat "#" (List.sort compare items)
+  | "db.other", [k] ->
+      (match db_open_iter (if k = "file" then DbFile else DbNothing) with
+       | Some l -> "OK:" ^ String.concat "#" (List.map (fun _ -> "ITEM") l)
+       | None -> "E:open")
   | _ -> "UNKNOWN-OP"
 
 let () =
